@@ -1105,7 +1105,11 @@ def parse_multipart_form_data(
             raise HTTPInputError("multipart/form-data missing headers")
         if eoh > config.max_part_header_size:
             raise HTTPInputError("multipart/form-data part header too large")
-        headers = HTTPHeaders.parse(part[:eoh].decode("utf-8"), _chars_are_bytes=False)
+        try:
+            header_text = part[:eoh].decode("utf-8")
+        except UnicodeDecodeError:
+            raise HTTPInputError("multipart/form-data part headers are not valid UTF-8")
+        headers = HTTPHeaders.parse(header_text, _chars_are_bytes=False)
         disp_header = headers.get("Content-Disposition", "")
         disposition, disp_params = _parse_header(disp_header)
         if disposition != "form-data" or not part.endswith(b"\r\n"):
